@@ -15,6 +15,18 @@ def main() -> int:
     ap.add_argument("--seed", type=int, default=None)
     a = ap.parse_args()
     seed = a.seed if a.seed is not None else int(os.environ.get("VERIF_SEED", "20260927") or 0)
+    if a.replay:
+        try:
+            import json
+            seed = int(json.load(open(a.replay)).get("seed", seed))
+        except Exception:  # noqa: BLE001 - an unreadable replay file is reported by run_check
+            pass
+    # string hashing (hence the iteration order of sets of weekdays, of dictionaries keyed by text ...) is part of the process
+    # environment: it follows the seed, so that different seeds see different orders and a replay sees the recorded one
+    want = str(seed % 4294967295)
+    if a.what not in ("setup", "selftest", "bindtest") and os.environ.get("PYTHONHASHSEED") != want:
+        env = dict(os.environ, PYTHONHASHSEED=want)
+        os.execve(sys.executable, [sys.executable, "-m", "harness"] + sys.argv[1:], env)
     if a.what == "setup":
         from .setup import setup
         return setup()
